@@ -1,0 +1,103 @@
+//! C03: drive the backend write path (create / modify / entry_index / reindex) on explicit
+//! entries and dump the raw index and name tables.
+
+use crate::be::{BackendTransaction, BackendWriteTransaction, VerifC03Raw};
+use crate::entry::{Eattrs, Entry, EntrySealedCommitted, EntrySealedNew};
+use crate::prelude::*;
+use crate::repl::entry::EntryChangeState;
+use std::sync::Arc;
+
+fn attrs_of(attrs: Vec<(Attribute, Vec<Value>)>) -> Result<Eattrs, OperationError> {
+    let mut m = Eattrs::default();
+    for (a, vs) in attrs {
+        let vs = crate::valueset::from_value_iter(vs.into_iter())?;
+        m.insert(a, vs);
+    }
+    Ok(m)
+}
+
+/// A sealed new entry with the given uuid and attributes, every attribute changed at `cid`.
+pub fn build_new(
+    uuid: Uuid,
+    attrs: Vec<(Attribute, Vec<Value>)>,
+    cid: &Cid,
+) -> Result<EntrySealedNew, OperationError> {
+    let attrs = attrs_of(attrs)?;
+    let ecstate = EntryChangeState::new_without_schema(cid, &attrs);
+    Ok(Entry::verif_c03_build_new(uuid, ecstate, attrs))
+}
+
+/// A sealed committed entry with backend id `id`.
+pub fn build_committed(
+    uuid: Uuid,
+    attrs: Vec<(Attribute, Vec<Value>)>,
+    cid: &Cid,
+    id: u64,
+) -> Result<EntrySealedCommitted, OperationError> {
+    build_new(uuid, attrs, cid).map(|e| e.into_sealed_committed_id(id))
+}
+
+/// The private `BackendWriteTransaction::entry_index`.
+pub fn entry_index(
+    be: &mut BackendWriteTransaction<'_>,
+    pre: Option<&EntrySealedCommitted>,
+    post: Option<&EntrySealedCommitted>,
+) -> Result<(), OperationError> {
+    be.verif_c03_entry_index(pre, post)
+}
+
+/// The tail of `reap_tombstones`: delete the stored entries, then remove their index content.
+pub fn purge(
+    be: &mut BackendWriteTransaction<'_>,
+    ents: &[Arc<EntrySealedCommitted>],
+) -> Result<(), OperationError> {
+    be.verif_c03_delete_identry(ents.iter().map(|e| e.get_id()).collect())?;
+    ents.iter()
+        .try_for_each(|e| be.verif_c03_entry_index(Some(e.as_ref()), None))
+}
+
+/// Every stored entry as the write transaction sees it.
+pub fn all_entries(
+    be: &mut BackendWriteTransaction<'_>,
+) -> Result<Vec<Arc<EntrySealedCommitted>>, OperationError> {
+    crate::be::verif_all_entries(be)
+}
+
+/// Raw SQLite content of all index and name tables (bypasses every cache).
+pub fn raw_dump(be: &mut BackendWriteTransaction<'_>) -> Result<VerifC03Raw, OperationError> {
+    be.verif_c03_raw()
+}
+
+/// The cached read path of one index key (what searches use).
+pub fn cached_idl(
+    be: &mut BackendWriteTransaction<'_>,
+    attr: &Attribute,
+    itype: IndexType,
+    key: &str,
+) -> Result<Option<Vec<u64>>, OperationError> {
+    be.verif_c03_cached_idl(attr, itype, key)
+}
+
+/// The cached name lookups (what `name_to_uuid`, `uuid_to_spn`, `uuid_to_rdn` use).
+pub fn name2uuid(be: &mut BackendWriteTransaction<'_>, n: &str) -> Result<Option<Uuid>, OperationError> {
+    be.name2uuid(n)
+}
+pub fn externalid2uuid(
+    be: &mut BackendWriteTransaction<'_>,
+    n: &str,
+) -> Result<Option<Uuid>, OperationError> {
+    be.externalid2uuid(n)
+}
+pub fn uuid2spn(be: &mut BackendWriteTransaction<'_>, u: Uuid) -> Result<Option<Value>, OperationError> {
+    be.uuid2spn(u)
+}
+pub fn uuid2rdn(be: &mut BackendWriteTransaction<'_>, u: Uuid) -> Result<Option<String>, OperationError> {
+    be.uuid2rdn(u)
+}
+
+/// Index metadata keys for `Backend::new` / `update_idxmeta` (the type lives in a private module).
+pub fn idxkeys(v: Vec<(Attribute, IndexType)>) -> Vec<crate::be::IdxKey> {
+    v.into_iter()
+        .map(|(a, t)| crate::be::IdxKey::new(a, t))
+        .collect()
+}
